@@ -428,7 +428,12 @@ fn build_order(prios: &[(u16, u16, bool)], deps: &[Dep], unlocks: &[Vec<Dep>]) -
 	out
 }
 
+/// Sensitivity-testing knob: with VERIF_C17_CONFLUENCE_ONLY=1 the confluence part drops its
+/// per-delivery comparison with the reference, leaving only "all orders give the same graph".
+static CONFLUENCE_ONLY: std::sync::atomic::AtomicBool = std::sync::atomic::AtomicBool::new(false);
+
 fn confluence_oracle(c: &CCase, ctx: &mut Ctx) -> CaseResult {
+	let confluence_only = CONFLUENCE_ONLY.load(std::sync::atomic::Ordering::Relaxed);
 	let mut w = World::new(&c.uni);
 	let msgs = c.uni.all_msgs();
 	let n = msgs.len().min(127);
@@ -498,10 +503,15 @@ fn confluence_oracle(c: &CCase, ctx: &mut Ctx) -> CaseResult {
 					p2p = *i % 2 == 0;
 				}
 			}
-			step_deliver(&lib, &mut model, &w, &m, p2p, &format!("order {} position {} (message #{})", k, pos, i), &mut seen)?;
+			let r = step_deliver(&lib, &mut model, &w, &m, p2p, &format!("order {} position {} (message #{})", k, pos, i), &mut seen);
+			if !confluence_only {
+				r?;
+			}
 			steps += 1;
 		}
-		compare_views(&lib, &model, &format!("order {}", k), "all deliveries")?;
+		if !confluence_only {
+			compare_views(&lib, &model, &format!("order {}", k), "all deliveries")?;
+		}
 		lib.roundtrip()?;
 		views.push(lib_view(&lib.g));
 		sequences.push(seq);
@@ -658,7 +668,7 @@ fn tamper_oracle(c: &TCase, ctx: &mut Ctx) -> CaseResult {
 					if bit / 8 < sig_len { "signature" } else { "signed" },
 					if accepted { "ACCEPTED" } else { "rejected" },
 					if p2p { "P2PGossipSync" } else { "NetworkGraph" },
-					if after != before { view_diff(&after, &before) } else { "unchanged".into() }
+					if after != before { format!("changed (lib = after, reference = before the delivery): {}", view_diff(&after, &before)) } else { "unchanged".into() }
 				),
 			)
 			.with_key(format!("tamper/{}/{}", ["ann", "upd", "node"][kind as usize], if bit / 8 < sig_len { "sig" } else { "body" })));
@@ -693,6 +703,7 @@ fn main() {
 	c.assume("the relay limit for unknown trailing data (1024 bytes: larger messages are applied but not stored) and the 'same scid, other endpoints is re-validated against the chain' rule are taken from the library's documented behaviour, not from BOLT 7");
 	c.assume("messages are canonical structs a wire decoder could have produced (must_be_one flag set, unknown address data starting with an unknown descriptor type)");
 	let thorough = c.tier() == Tier::Thorough;
+	CONFLUENCE_ONLY.store(std::env::var("VERIF_C17_CONFLUENCE_ONLY").map(|v| v == "1").unwrap_or(false), std::sync::atomic::Ordering::Relaxed);
 	c.part(
 		PartSpec {
 			name: "model",
